@@ -105,4 +105,19 @@ example (j : Junk) (io : Isa.IOSt) (m : Nat) :
     Proc.mk' j io m = setMax (Proc.mk' j io 0) m ∧ (Proc.mk' j io 0).maxCycles = 0 ∧
     (Proc.mk' j io 0).cycles + m ≤ m := ⟨rfl, rfl, by simp [Proc.mk']⟩
 
+/-- **Cycle limit, bound.**  With `--max-cycles m` (m > 0) the cycle counter of the processor the
+    run ends with - however it ends: return, exception, fault - is at most `m + 1`: `run()` never
+    executes more than one instruction past the limit (the loop tests `cycles <= maxCycles`). -/
+theorem C12_maxcycles_bound (fuel : Nat) (j : Junk) (io : Isa.IOSt) (m : Nat) (hm : 0 < m)
+    (file : List Byte) (p : Proc) (hl : load (Proc.mk' j io m) file = some p) :
+    (run fuel p).proc.cycles ≤ m + 1 := by
+  have hp : p.maxCycles = m ∧ p.cycles = 0 := by
+    unfold load at hl
+    split at hl
+    · cases hl; exact ⟨rfl, rfl⟩
+    · cases hl
+  have := (run_cycles_bound fuel p (by rw [hp.1]; exact hm)).1
+  rw [hp.1, hp.2] at this
+  omega
+
 end Hex.Properties.C12
